@@ -22,7 +22,7 @@
        optimal, worst excess 2.62e-7) and equals the exact model's entry. *)
 From Coq Require Import List NArith ZArith Bool Sorted.
 From SNT Require Import Base.Outcome Encoder.Encode Encoder.Color256 Encoder.Color256Proofs Encoder.VT Encoder.Denote
-  Encoder.EncodeMeaning Gen.TabColor.
+  Encoder.EncodeMeaning Encoder.EncodeC20 Gen.TabColor.
 Import ListNotations.
 Local Open Scope Z_scope.
 
@@ -87,6 +87,31 @@ Theorem C20_truecolor :
     vt_ops bs = [OSgr t] /\
     forall prior : rendition, rt_apply t prior = face_rendition f.
 Proof. exact c05_face_exact_thm. Qed.
+
+(* 6. ROLES x DEPTHS: the bytes the encoder model (with the reduction inside, encode_c20) emits for
+      FaceModify { fg, bg, underline_color } are one complete SGR sequence that sets exactly
+        true colour   the three colours with unchanged channels,
+        256 colours   the palette indices pal256_exact of the three colours,
+        grey          the system colour of the level gray4_exact for fg and bg, and NOTHING for the
+                      underline colour (the library sends no grey rendering of it: a decision of
+                      the code, recorded here as part of the specification),
+      and touches no other aspect of the rendition. *)
+Theorem C20_roles :
+  forall d glyphs kitty fg bg ul,
+  rgba_ok fg = true -> rgba_ok bg = true -> rgba_ok ul = true ->
+  exists bs,
+    encode_c20 (mkCaps d glyphs kitty) (FaceModify (colours_fm fg bg ul)) = Ok bs /\
+    vt_complete bs = true /\
+    vt_ops bs =
+      [OSgr match d with
+            | TrueColor => only_colours (Some (CRgb (cr fg) (cg fg) (cb fg))) (Some (CRgb (cr bg) (cg bg) (cb bg)))
+                                        (Some (CRgb (cr ul) (cg ul) (cb ul)))
+            | EightBit => only_colours (Some (CIdx (pal256_exact fg))) (Some (CIdx (pal256_exact bg)))
+                                       (Some (CIdx (pal256_exact ul)))
+            | Gray => only_colours (Some (CIdx (gray_entry (gray4_exact fg)))) (Some (CIdx (gray_entry (gray4_exact bg))))
+                                   None
+            end].
+Proof. exact c20_roles. Qed.
 
 (* the brute-force minimum used by the correspondence predicate is the minimum *)
 Theorem C20_bruteforce_is_minimum :
